@@ -7,6 +7,7 @@ import (
 	"encoding/json"
 	"fmt"
 	mrand "math/rand"
+	"reflect"
 	"strings"
 
 	"verifharness/mon"
@@ -433,6 +434,44 @@ func c18(x *mon.Ctx) {
 			}
 			x.Note("default-opts-nonce-bitflip", c.Param, s != nil, false, s == nil && e != nil)
 		}
+		// nonces shorter than REPORT_DATA: the default policy binds REPORT_DATA to the nonce followed by zeros, so an honest quote
+		// carrying exactly that is accepted and any other nonce of the same length is refused
+		for _, n := range []int{1, 16, 20, 32, 48, 63, 64} {
+			nonce := make([]byte, n)
+			x.Rand(fmt.Sprint("nonce", n)).Read(nonce)
+			w := base.Clone()
+			for i := 520; i < 584; i++ {
+				w.Q.Body[i] = 0
+			}
+			copy(w.Q.Body[520:], nonce)
+			w.Requote()
+			c := w.Case(world.LBase, "default-opts-short-nonce", fmt.Sprint("len", n))
+			vo, _ := mon.Options(c)
+			m := mon.MessageFor("built", c.Quote)
+			for _, kind := range []string{"right", "last-byte-differs"} {
+				nn := append([]byte{}, nonce...)
+				if kind != "right" {
+					nn[n-1] ^= 0x40
+				}
+				o := rtmr.TdxDefaultOpts(nn)
+				o.Verification = vo
+				var st any
+				var e error
+				pv, stk := mon.Guard(func() { st, e = rtmr.ParseCcelWithTdQuote(ccelData, ccelTable, m, &o) })
+				got := pv == "" && e == nil && st != nil && !reflect.ValueOf(st).IsNil()
+				param := fmt.Sprintf("len%d/%s", n, kind)
+				switch {
+				case pv != "":
+					x.Violation("default-opts-short-nonce", param, "panic: "+pv+"\n"+stk, "none", param)
+				case kind == "right" && !got:
+					x.Violation("default-opts-short-nonce", param, fmt.Sprintf("an honest quote whose REPORT_DATA is the %d-byte nonce followed by zeros is refused under TdxDefaultOpts(nonce): %v", n, e), "none", param)
+				case kind != "right" && got:
+					x.Violation("default-opts-short-nonce", param, "a nonce that differs from REPORT_DATA still yields a state", "none", param)
+				}
+				x.Note("default-opts-short-nonce", param, got, false, pv == "")
+			}
+		}
+		x.Require("default-opts-short-nonce", 7, 7, 14)
 		{ // one caller customises the verification options it got from TdxDefaultOpts IN PLACE (its own root, its own time);
 			// a later caller's untouched defaults must still mean "Intel's root": our re-signed quote does not verify under them
 			c := base.Case(world.LBase, "default-opts-independent", "")
